@@ -150,7 +150,10 @@ var c06Set *jet.Set
 var c06RootVals map[string]interface{}
 
 func c06Init() {
-	c06Set = jet.NewSet(jet.NewInMemLoader(), jet.WithSafeWriter(nil))
+	c06Loader := jet.NewInMemLoader()
+	// fails while '.' is rebound by a range: isset(exec("/failrange.jet").x) swallows that
+	c06Loader.Set("/failrange.jet", `{{ range ints(0, 2) }}{{ nosuchvariable }}{{ end }}`)
+	c06Set = jet.NewSet(c06Loader, jet.WithSafeWriter(nil))
 	// a global of the same name as the Execute variable every path starts from: the variable always shadows it,
 	// also when its value is nil
 	c06Set.AddGlobal("root", "GLOBAL-ROOT")
@@ -168,7 +171,7 @@ func c06Render(src, root string) (string, error) {
 	vars := jet.VarMap{}
 	vars.Set("root", c06RootVals[root])
 	var b bytes.Buffer
-	err = safeExecute(t, &b, vars, nil)
+	err = safeExecute(t, &b, vars, c06RootVals[root]) // '.' is the same value as root
 	return b.String(), err
 }
 
@@ -204,7 +207,8 @@ func c06Replay(i int, raw json.RawMessage) Result {
 			return Result{Detail: "harness: Go catalogue does not mirror spec/JetAccess.tla: " + why}
 		}
 		for _, h := range v.Hostile {
-			for _, form := range []string{"{{ isset(" + h + ") }}", "{{ isset(root, " + h + ") }}", "{{ if isset(" + h + ") }}true{{ else }}false{{ end }}"} {
+			for _, form := range []string{"{{ isset(" + h + ") }}", "{{ isset(root, " + h + ") }}", "{{ if isset(" + h + ") }}true{{ else }}false{{ end }}",
+				"{{ isset(" + h + ") }}{{ if isset(.Name) }}{{ else }} then isset(.Name) is false{{ end }}{{ if isset(.Ghost) }} then isset(.Ghost) is true{{ end }}"} {
 				out, err := c06Render(form, "outer")
 				if err != nil || out != "false" {
 					sig := map[string]interface{}{"kind": "isset-hostile", "root": "outer", "expect": "false", "laststep": "", "lastname": h}
@@ -292,11 +296,14 @@ func c06Replay(i int, raw json.RawMessage) Result {
 	}
 	// piped form: only when the access itself succeeds (the pipeline evaluates it before isset sees it)
 	if v.Outcome.Kind != "error" && last.T != "call" && last.T != "slice" {
-		o3, e3 := c06Render("{{ "+expr+" | isset }}", v.Root)
-		if e3 != nil || o3 != fmt.Sprint(v.IsSet) {
-			sig["kind"] = "isset-piped"
-			return Result{Sig: sig, Key: key, Observed: map[string]interface{}{"out": o3, "err": fmt.Sprint(e3)}, Expected: v.IsSet,
-				Detail: fmt.Sprintf("{{ %s | isset }} on root %s rendered %q (err %v), spec %v", expr, v.Root, o3, e3, v.IsSet)}
+		for _, form := range []string{"{{ " + expr + " | isset }}", "{{ " + expr + " | isset(_) }}", "{{ " + expr + " | isset(root, _) }}"} {
+			o3, e3 := c06Render(form, v.Root)
+			want := v.IsSet && (form[len(form)-10:] != "root, _) }}" || c06RootVals[v.Root] != nil)
+			if e3 != nil || o3 != fmt.Sprint(want) {
+				sig["kind"] = "isset-piped"
+				return Result{Sig: sig, Key: key, Observed: map[string]interface{}{"out": o3, "err": fmt.Sprint(e3)}, Expected: want,
+					Detail: fmt.Sprintf("%s on root %s rendered %q (err %v), spec %v", form, v.Root, o3, e3, want)}
+			}
 		}
 	}
 	// two-value lookup
